@@ -154,10 +154,15 @@ func genMulti(t *rapid.T) kit.Cmd {
 	case 14:
 		return kit.MkCmd(gen.Pick(t, "single", "GET", "LLEN", "SCARD", "TYPE", "TTL", "PERSIST", "LPOP", "SPOP", "INCR", "HGETALL", "ZRANGE"), key(t), "0", "-1")[:2]
 	default:
-		// blocking pop over several keys; the first key holds an element so that it returns at the first
-		// poll (100 ms): kept rare
-		if rapid.IntRange(0, 3).Draw(t, "blpop") == 0 {
-			return kit.MkCmd("BLPOP", "blk", key(t), key(t), "1")
+		// blocking pop over several keys; one of them ("blk") holds an element so that it returns at the
+		// first poll - after the keys named before it were visited and found without one: kept rare
+		if rapid.IntRange(0, 5).Draw(t, "blpop") == 0 {
+			ks := []string{key(t), key(t), key(t)}
+			ks[rapid.IntRange(0, 2).Draw(t, "blkpos")] = "blk"
+			if rapid.IntRange(0, 3).Draw(t, "blkrep") == 0 {
+				ks[0] = ks[1] // a key named twice before the one that serves
+			}
+			return kit.MkCmd(gen.Pick(t, "bpop", "BLPOP", "BRPOP"), ks[0], ks[1], ks[2], "1")
 		}
 		return kit.MkCmd("LMOVE", key(t), key(t), "RIGHT", "LEFT")
 	}
@@ -201,7 +206,13 @@ func execOrder(c OrderCase) kit.Outcome {
 		o.Labels = append(o.Labels, "expired-keys")
 	}
 	for i, cmd := range c.Cmds {
-		if strings.EqualFold(string(cmd[0]), "BLPOP") {
+		if strings.EqualFold(string(cmd[0]), "BLPOP") || strings.EqualFold(string(cmd[0]), "BRPOP") {
+			// the keys named before "blk" must be without an element, or the pop never gets that far
+			for _, k := range cmd[1 : len(cmd)-1] {
+				if string(k) != "blk" {
+					do(kit.MkCmd("DEL", string(k)))
+				}
+			}
 			do(kit.MkCmd("RPUSH", "blk", "e"))
 		}
 		tr.mu.Lock()
